@@ -72,8 +72,71 @@ def lookup_rule(rules, name, stm, init):
     return []
 
 
+# ---------------------------------------------------------------------
+# the mode CLASS: a hierarchy of class bodies
+# ---------------------------------------------------------------------
+# spec["classes"]: list of {"bases": [indices of earlier entries], "defs": [...]}, bases first, the LAST
+# entry is the mode class that is instantiated; no "bases" = derives from StatefulAutonomous directly.
+# A def is {"name", "kind": "state", "timed", "dur", "next", "params", "first"} or
+# {"name", "kind": "other", "as": "method"|"none"|"const"} (an attribute that is not a state).
+# spec["states"] / spec["first"] / spec["firsts"] are DERIVED (normalize_spec): the states the mode has
+# by Python's attribute lookup on the class (inherited ones included, the most derived definition wins).
+def skeleton_mro(classes):
+    """indices of spec["classes"] in the order of type(self).__mro__ (plain Python classes, no library)."""
+    ks = []
+    for i, c in enumerate(classes):
+        bases = tuple(ks[j] for j in c.get("bases", [])) or (object,)
+        ks.append(type("K%d" % i, bases, {"_idx": i}))
+    return [k._idx for k in ks[-1].__mro__ if k is not object]
+
+
+def flat_classes(spec):
+    defs = []
+    for s_ in spec["states"]:
+        d = dict(s_, kind="state", first=(s_["name"] == spec.get("first")))
+        defs.append(d)
+    return [{"bases": [], "defs": defs}]
+
+
+def effective_defs(classes):
+    """name -> (def, index of the defining class), by the MRO"""
+    eff = {}
+    for ci in skeleton_mro(classes):
+        for d in classes[ci]["defs"]:
+            eff.setdefault(d["name"], (d, ci))
+    return eff
+
+
+def normalize_spec(spec):
+    if not spec.get("classes"):
+        spec["classes"] = flat_classes(spec)
+    for c in spec["classes"]:
+        c.setdefault("bases", [])
+        for d in c["defs"]:
+            d.setdefault("kind", "state")
+            if d["kind"] == "state":
+                d.setdefault("first", False)
+                if d["timed"]:
+                    d.setdefault("next", None)
+    eff = effective_defs(spec["classes"])
+    states = [dict((k, v) for k, v in d.items() if k not in ("kind", "first"))
+              for (nm, (d, _)) in sorted(eff.items()) if d["kind"] == "state"]
+    firsts = sorted(nm for (nm, (d, _)) in eff.items() if d["kind"] == "state" and d["first"])
+    spec["states"] = states
+    spec["firsts"] = firsts
+    spec["first"] = firsts[0] if len(firsts) == 1 else None
+    return spec
+
+
+def inherited_names(spec):
+    """effective states that are not defined in the mode class itself"""
+    top = len(spec["classes"]) - 1
+    return sorted(nm for (nm, (d, ci)) in effective_defs(spec["classes"]).items()
+                  if d["kind"] == "state" and ci != top)
+
+
 def build_class(mod, spec, idx):
-    """type()-generated subclass for a mode definition."""
+    """type()-generated mode class (with its base classes) for a mode definition."""
     def _call(self, name, loc):
         tm, stm, init = loc.get("tm"), loc.get("state_tm"), loc.get("initial_call")
         self._log.append(("call", name,
@@ -98,16 +161,26 @@ def build_class(mod, spec, idx):
                         self._log.append(("done",))
                 break
 
-    base = mod.StatefulAutonomous
-    ns = {"MODE_NAME": spec["mode_name"], "_call": _call}
-    for s in spec["states"]:
-        f = _mk_fn(s["name"], s["params"])
-        first = s["name"] == spec["first"]
-        if s["timed"]:
-            ns[s["name"]] = mod.timed_state(f, duration=s["dur"] / T, next_state=s["next"], first=first)
-        else:
-            ns[s["name"]] = mod.state(f, first=first)
-    return type("SA_%d" % idx, (base,), ns)
+    classes = spec["classes"]
+    built = []
+    for ci, c in enumerate(classes):
+        top = ci == len(classes) - 1
+        ns = {}
+        if top:
+            ns["MODE_NAME"] = spec["mode_name"]
+            ns["_call"] = _call
+        for d in c["defs"]:
+            if d["kind"] == "other":
+                ns[d["name"]] = {"method": (lambda self: None), "none": None, "const": 3.5}[d.get("as", "method")]
+                continue
+            f = _mk_fn(d["name"], d["params"])
+            if d["timed"]:
+                ns[d["name"]] = mod.timed_state(f, duration=d["dur"] / T, next_state=d["next"], first=d["first"])
+            else:
+                ns[d["name"]] = mod.state(f, first=d["first"])
+        bases = tuple(built[j] for j in c["bases"]) or (mod.StatefulAutonomous,)
+        built.append(type("SA_%d%s" % (idx, "" if top else "_b%d" % ci), bases, ns))
+    return built[-1]
 
 
 def sd_table():
@@ -116,10 +189,13 @@ def sd_table():
 
 
 def run_impl(mod, spec, ops, idx=0):
-    """Returns (events per op, harness problems)."""
+    """Returns (constructor exception class or None, events per op, harness problems)."""
     cls = build_class(mod, spec, idx)
     problems = []
-    m = cls(spec.get("components"))
+    try:
+        m = cls(spec.get("components"))
+    except Exception as e:  # noqa
+        return type(e).__name__, [[] for _ in ops], problems
     m._log = []
     m._rules = []
     table = sd_table()
@@ -159,7 +235,7 @@ def run_impl(mod, spec, ops, idx=0):
             else:
                 evs.append(e)
         out.append(evs)
-    return out, problems
+    return None, out, problems
 
 
 # ---------------------------------------------------------------------
@@ -282,8 +358,24 @@ def ev_agrees(obs, exp):
     return True
 
 
-def oracle(spec, ops, events):
-    """Violations of the property on an implementation trace: list of dicts."""
+def oracle(spec, ops, events, ctor=None):
+    """Violations of the property on an implementation trace: list of dicts.
+    The mode has the states Python's attribute lookup finds on its class
+    (spec["states"]: inherited ones included)."""
+    firsts = spec.get("firsts", [spec["first"]] if spec.get("first") else [])
+    if ctor is not None:
+        if len(firsts) == 1:
+            # a mode with exactly one first state cannot even be constructed:
+            # on_enable()/on_iteration() can never run its first state
+            return [{"op_index": -1, "clause": "first_runs(constructor)", "status": ["notenabled"],
+                     "expected": "a mode object whose first state is %s" % firsts[0],
+                     "observed": [("ctor_err", ctor)]}]
+        return []
+    if len(firsts) != 1:
+        # zero or several first states: the property does not say what runs; the model assumes the
+        # constructor refuses (ValueError)
+        return [{"op_index": -1, "clause": "constructor_accepts_%d_first_states" % len(firsts),
+                 "status": ["notenabled"], "expected": "ValueError", "observed": [("ctor_ok",)]}]
     b = Book(spec)
     viol = []
     for k, (op, evs) in enumerate(zip(ops, events)):
@@ -323,29 +415,112 @@ def oracle(spec, ops, events):
 # ---------------------------------------------------------------------
 # generators
 # ---------------------------------------------------------------------
-def gen_spec(rng, idx):
+HIERARCHIES = [
+    # (weight, bases of each class; bases first, the mode class last)
+    (30, [[], [0]]),                    # Base <- Mode
+    (14, [[], [0], [1]]),               # GrandBase <- Base <- Mode
+    (8, [[], [], [0, 1]]),              # two independent bases (mixins): Mode(A, B)
+    (8, [[], [0], [0], [1, 2]]),        # diamond: Mode(A, B), A(R), B(R)
+    (4, [[], [0], [1], [2]]),           # depth 4
+]
+GHOSTS = ["s7", "s8"]
+
+
+def gen_state_def(rng, nm, names):
+    timed = rng.random() < 0.7
+    r = rng.random()
+    if r < 0.05:
+        params = []
+    elif r < 0.2:
+        params = rng.sample(ALL_PARAMS, rng.choice([1, 2]))
+    else:
+        params = list(ALL_PARAMS)
+        rng.shuffle(params)
+    st = {"name": nm, "timed": timed, "params": params}
+    if timed:
+        st["dur"] = rng.choice([0, 1, 2, 4, 8, 16, 32, 32, 64, 64, 100, 128])
+        r = rng.random()
+        st["next"] = None if r < 0.25 else (UNKNOWN if r < 0.26 else rng.choice(names))
+    return st
+
+
+def gen_spec(rng, idx, hier=None):
+    """A mode definition: the states the mode is meant to have (the effective
+    view), then a class hierarchy that realises it -- states spread over the
+    mode class and its bases, definitions hidden by a more derived one (other
+    duration / successor / first flag / not a state at all)."""
     n = rng.choice([1, 2, 2, 3, 3, 3, 4, 5])
     names = ["s%d" % i for i in range(n)]
     first = rng.choice(names)
-    states = []
-    for nm in names:
-        timed = rng.random() < 0.7
-        r = rng.random()
-        if r < 0.05:
-            params = []
-        elif r < 0.2:
-            params = rng.sample(ALL_PARAMS, rng.choice([1, 2]))
-        else:
-            params = list(ALL_PARAMS)
-            rng.shuffle(params)
-        st = {"name": nm, "timed": timed, "params": params}
-        if timed:
-            st["dur"] = rng.choice([0, 1, 2, 4, 8, 16, 32, 32, 64, 64, 100, 128])
-            r = rng.random()
-            st["next"] = None if r < 0.25 else (UNKNOWN if r < 0.26 else rng.choice(names))
-        states.append(st)
-    return {"mode_name": MODE_NAMES[idx % len(MODE_NAMES)], "states": states, "first": first,
+    states = [gen_state_def(rng, nm, names) for nm in names]
+    spec = {"mode_name": MODE_NAMES[idx % len(MODE_NAMES)],
             "components": rng.choice([None, {}, {"drive": 1}])}
+    if hier is None:
+        hier = rng.random() < 0.5
+    if not hier:
+        shape = [[]]
+    else:
+        tot = sum(w for w, _ in HIERARCHIES)
+        r = rng.random() * tot
+        for w, sh in HIERARCHIES:
+            r -= w
+            if r < 0:
+                break
+        shape = sh
+    classes = [{"bases": list(bs), "defs": []} for bs in shape]
+    mro = skeleton_mro(classes)            # class indices, most derived first
+    top = len(classes) - 1
+    inherit_first = rng.random() < 0.35
+    place = {}
+    for st in states:
+        nm = st["name"]
+        if len(mro) == 1:
+            pos = 0
+        elif nm == first:
+            pos = rng.randrange(1, len(mro)) if inherit_first else 0
+        else:
+            # most states of a hierarchical mode are inherited
+            pos = rng.randrange(1, len(mro)) if rng.random() < 0.65 else 0
+        place[nm] = pos
+        classes[mro[pos]]["defs"].append(dict(st, kind="state", first=(nm == first)))
+    if len(mro) > 1:
+        # definitions hidden by a more derived one
+        for st in states:
+            nm = st["name"]
+            later = list(range(place[nm] + 1, len(mro)))
+            if later and rng.random() < 0.3:
+                h = gen_state_def(rng, nm, names)
+                hd = dict(h, kind="state", first=rng.random() < 0.3)
+                if rng.random() < 0.15:
+                    hd = {"name": nm, "kind": "other", "as": rng.choice(["method", "none", "const"])}
+                classes[mro[rng.choice(later)]]["defs"].append(hd)
+        # a state of a base class that a more derived class replaced by something that is not a state
+        # (never referenced by anybody): it is not a state of the mode, its first flag does not count
+        for g in GHOSTS:
+            if rng.random() < 0.12:
+                pos = rng.randrange(0, len(mro) - 1)
+                classes[mro[pos]]["defs"].append({"name": g, "kind": "other",
+                                                  "as": rng.choice(["method", "none", "const"])})
+                gd = dict(gen_state_def(rng, g, names), kind="state", first=rng.random() < 0.5)
+                classes[mro[rng.randrange(pos + 1, len(mro))]]["defs"].append(gd)
+    if rng.random() < 0.06:
+        classes[rng.randrange(len(classes))]["defs"].append({"name": "s9", "kind": "other", "as": "method"})
+    # rarely: a definition the constructor has to refuse (no / two effective first states)
+    r = rng.random()
+    if r < 0.012:
+        for c in classes:
+            for d in c["defs"]:
+                if d["name"] == first and d["kind"] == "state" and c is classes[mro[place[first]]]:
+                    d["first"] = False
+    elif r < 0.024 and n >= 2:
+        other = rng.choice([x for x in names if x != first])
+        for d in classes[mro[place[other]]]["defs"]:
+            if d["name"] == other:
+                d["first"] = True
+    for c in classes:
+        rng.shuffle(c["defs"])
+    spec["classes"] = classes
+    return normalize_spec(spec)
 
 
 def gen_rules(rng, spec, book, focus):
@@ -378,11 +553,13 @@ def gen_rules(rng, spec, book, focus):
     return rules
 
 
-def gen_case(rng, idx, max_periods=4):
+def gen_case(rng, idx, max_periods=4, hier=None):
     """A mode definition and a history, generated alongside the reference
     bookkeeping so that clock readings land on, just before and just after
     expiry instants and scripts address the state that will be called."""
-    spec = gen_spec(rng, idx)
+    spec = gen_spec(rng, idx, hier)
+    if len(spec["firsts"]) != 1:
+        return {"spec": spec, "ops": []}       # the constructor must refuse; nothing to drive
     book = Book(spec)
     ops = []
     timed = [s for s in spec["states"] if s["timed"]]
@@ -476,6 +653,50 @@ def edge_cases():
                iters([0, 1], [("s0", ("notinit",), [("next", "s0")])]) + iters([2, 3]) +
                iters([4], [("s0", ("always",), [("done",)])]) + iters([5, 6, 1000]) +
                [{"op": "enable", "dash": d0}] + iters([0, 1])})
+    # ---- inherited states ----
+    def sdef(name, dur, nxt, first=False, timed=True):
+        d = {"name": name, "kind": "state", "timed": timed, "params": list(full), "first": first}
+        if timed:
+            d.update(dur=dur, next=nxt)
+        return d
+    tail = [sdef("s1", 32, "s2"), sdef("s2", 48, None)]
+    # a shared "settle -> shoot" tail in a base mode, the first state in the mode class; durations edited
+    inh = {"mode_name": "edge", "components": None, "classes": [
+        {"bases": [], "defs": tail}, {"bases": [0], "defs": [sdef("s0", 64, "s1", True)]}]}
+    out.append({"spec": inh, "ops": [{"op": "enable", "dash": {"s0": 64, "s1": 32, "s2": 48}}] +
+                iters([0, 64, 65, 96, 97, 144, 145, 146]) + [{"op": "disable"},
+                {"op": "enable", "dash": {"s0": 64, "s1": 80, "s2": 16}}] + iters([0, 16, 64, 80, 144, 145, 160, 161, 162])})
+    # the same tail reached from an untimed first state by next_state()
+    inh2 = {"mode_name": "edge", "components": None, "classes": [
+        {"bases": [], "defs": tail}, {"bases": [0], "defs": [sdef("s0", None, None, True, timed=False)]}]}
+    out.append({"spec": inh2, "ops": [{"op": "enable", "dash": {"s1": 32, "s2": 48}}] +
+                iters([0, 16], [("s0", ("stmge", 16), [("next", "s1")])]) + iters([32, 48, 49, 64, 97, 98, 99])})
+    # the first state itself is inherited (two levels up); the mode class only overrides a duration
+    inh3 = {"mode_name": "edge", "components": None, "classes": [
+        {"bases": [], "defs": [sdef("s0", 8, "s1", True)]},
+        {"bases": [0], "defs": [sdef("s1", 200, None)]},
+        {"bases": [1], "defs": [sdef("s1", 16, "s0")]}]}
+    out.append({"spec": inh3, "ops": [{"op": "enable", "dash": {"s0": 8, "s1": 16}}] + iters([0, 8, 9, 24, 25, 26, 34])})
+    # a base's first state replaced in the mode class: by a non-first state of the same name / by a plain method
+    inh4 = {"mode_name": "edge", "components": None, "classes": [
+        {"bases": [], "defs": [sdef("s1", 8, None, True), sdef("s7", 8, None, True)]},
+        {"bases": [0], "defs": [sdef("s0", 4, "s1", True), sdef("s1", 8, None, False),
+                                {"name": "s7", "kind": "other", "as": "method"}]}]}
+    out.append({"spec": inh4, "ops": [{"op": "enable", "dash": {"s0": 4, "s1": 8}}] + iters([0, 4, 5, 12, 13, 14])})
+    # two first states, one of them inherited; no first state at all (only a hidden one): refused
+    out.append({"spec": {"mode_name": "edge", "components": None, "classes": [
+        {"bases": [], "defs": [sdef("s1", 8, None, True)]}, {"bases": [0], "defs": [sdef("s0", 4, "s1", True)]}]}, "ops": []})
+    out.append({"spec": {"mode_name": "edge", "components": None, "classes": [
+        {"bases": [], "defs": [sdef("s0", 8, None, True)]}, {"bases": [0], "defs": [sdef("s0", 4, None, False)]}]}, "ops": []})
+    # diamond: Mode(A, B), A(R), B(R); A's definition of s1 wins over B's and R's
+    dia = {"mode_name": "edge", "components": None, "classes": [
+        {"bases": [], "defs": [sdef("s1", 100, None), sdef("s2", 4, None)]},
+        {"bases": [0], "defs": [sdef("s1", 8, "s2")]},
+        {"bases": [0], "defs": [sdef("s1", 50, None), sdef("s0", 16, "s1", True)]},
+        {"bases": [1, 2], "defs": []}]}
+    out.append({"spec": dia, "ops": [{"op": "enable", "dash": {"s0": 16, "s1": 8, "s2": 4}}] + iters([0, 16, 17, 24, 25, 28, 29, 30])})
+    for c in out:
+        normalize_spec(c["spec"])
     return out
 
 
@@ -524,15 +745,38 @@ HEADER = ("From Coq Require Import ZArith List Bool.\nFrom RV Require Import Sta
           "Import ListNotations.\n")
 
 
-def coq_case(c, events):
-    flat = [e for evs in events for e in evs if e[0] in ("call", "err")]
-    return "(%s,\n  %s,\n  %s)" % (coq_shape(c["spec"]), coq_list([coq_op(o) for o in c["ops"]]),
-                                  coq_list([coq_obs(e) for e in flat]))
+def coq_sdecl(d):
+    if d["timed"]:
+        return "(Timed %s %s)" % (coq_Z(d["dur"]), coq_opt(d["next"], lambda n: coq_nat(sid(n))))
+    return "Untimed"
+
+
+def coq_mro(spec):
+    """the class bodies in the order of type(self).__mro__ (Python's linearisation)"""
+    bodies = []
+    for ci in skeleton_mro(spec["classes"]):
+        items = []
+        for d in spec["classes"][ci]["defs"]:
+            if d["kind"] == "other":
+                items.append("(%s, AOther)" % coq_nat(sid(d["name"])))
+            else:
+                items.append("(%s, AState %s %s)" % (coq_nat(sid(d["name"])), coq_sdecl(d), coq_bool(d["first"])))
+        bodies.append(coq_list(items))
+    return coq_list(bodies)
+
+
+def coq_case(c, ctor, events):
+    if ctor is not None:
+        obs = "None"
+    else:
+        flat = [e for evs in events for e in evs if e[0] in ("call", "err")]
+        obs = "(Some %s)" % coq_list([coq_obs(e) for e in flat])
+    return "(%s, %s,\n  %s,\n  %s)" % (coq_Z(INF), coq_mro(c["spec"]), coq_list([coq_op(o) for o in c["ops"]]), obs)
 
 
 def cases_file(items):
-    return (HEADER + "Definition cases : list case := %s.\n" % coq_list([coq_case(c, ev) for c, ev in items]) +
-            "Eval vm_compute in (bad 0%nat cases).\n")
+    return (HEADER + "Definition cases : list ccase := %s.\n" % coq_list([coq_case(c, ct, ev) for c, ct, ev in items]) +
+            "Eval vm_compute in (cbad 0%nat cases).\n")
 
 
 # ---------------------------------------------------------------------
@@ -543,6 +787,7 @@ def norm_case(c):
     for op in c["ops"]:
         if op["op"] == "iter":
             op["rules"] = [(r[0], tuple(r[1]), [tuple(a) for a in r[2]]) for r in op["rules"]]
+    normalize_spec(c["spec"])
     return c
 
 
@@ -562,29 +807,56 @@ def load_corpus():
 # ---------------------------------------------------------------------
 def fails(mod, c):
     try:
-        ev, _ = run_impl(mod, c["spec"], c["ops"], 900000)
+        normalize_spec(c["spec"])
+        ctor, ev, _ = run_impl(mod, c["spec"], c["ops"], 900000)
     except Exception:
         return None
-    v = oracle(c["spec"], c["ops"], ev)
+    v = oracle(c["spec"], c["ops"], ev, ctor)
     return (v, ev) if v else None
+
+
+def _copy(c):
+    return norm_case(json.loads(json.dumps(c)))
 
 
 def shrink(mod, c):
     """smaller history/definition on which the oracle still reports a violation"""
-    c = json.loads(json.dumps(c))
-    norm_case(c)
+    c = _copy(c)
     r = fails(mod, c)
     if not r:
         return c, None
     # cut after the violating operation
     c["ops"] = c["ops"][:r[0][0]["op_index"] + 1]
-    for s in c["spec"]["states"]:
-        s["params"] = list(ALL_PARAMS)
+    t = _copy(c)
+    for k in t["spec"]["classes"]:
+        for d in k["defs"]:
+            if d["kind"] == "state":
+                d["params"] = list(ALL_PARAMS)
+    if fails(mod, t):
+        c = t
     if not fails(mod, c):
         return c, fails(mod, c)
+
+    def attempt(t):
+        nonlocal c
+        try:
+            normalize_spec(t["spec"])
+        except Exception:
+            return False
+        if fails(mod, t):
+            c = t
+            return True
+        return False
+
     changed = True
     while changed:
         changed = False
+        # the whole definition in ONE class (then inheritance plays no role)
+        if len(c["spec"]["classes"]) > 1:
+            t = _copy(c)
+            t["spec"]["classes"] = None
+            if attempt(t):
+                changed = True
         # drop single operations
         i = 0
         while i < len(c["ops"]):
@@ -603,43 +875,86 @@ def shrink(mod, c):
                     changed = True
                 else:
                     o["rules"] = keep
-        # drop states nobody mentions
-        used = {c["spec"]["first"]}
-        for s in c["spec"]["states"]:
-            if s["timed"] and s["next"]:
-                used.add(s["next"])
-        for o in c["ops"]:
-            if o["op"] == "iter":
-                for (n, _, acts) in o["rules"]:
-                    used.add(n)
-                    used.update(a[1] for a in acts if a[0] == "next")
-        for s in list(c["spec"]["states"]):
-            if s["name"] not in used:
-                t = json.loads(json.dumps(c))
-                norm_case(t)
-                t["spec"]["states"] = [x for x in t["spec"]["states"] if x["name"] != s["name"]]
-                for o in t["ops"]:
-                    if o["op"] == "enable":
-                        o["dash"].pop(s["name"], None)
-                if fails(mod, t):
-                    c = t
-                    changed = True
-        # untangle: successors that do not matter
-        for s in c["spec"]["states"]:
-            if s["timed"] and s["next"] is not None:
-                keep = s["next"]
-                s["next"] = None
-                if fails(mod, c):
+        # drop single definitions: hidden ones, non-states, states nobody needs
+        ci = 0
+        while ci < len(c["spec"]["classes"]):
+            di = 0
+            while di < len(c["spec"]["classes"][ci]["defs"]):
+                t = _copy(c)
+                gone = t["spec"]["classes"][ci]["defs"].pop(di)
+                still = {d["name"] for k in t["spec"]["classes"] for d in k["defs"]}
+                if gone["name"] not in still:
+                    for o in t["ops"]:
+                        if o["op"] == "enable":
+                            o["dash"].pop(gone["name"], None)
+                if attempt(t):
                     changed = True
                 else:
-                    s["next"] = keep
+                    di += 1
+            ci += 1
+        # drop classes that define nothing (their subclasses inherit from their bases instead)
+        ci = 0
+        while ci < len(c["spec"]["classes"]) - 1:
+            k = c["spec"]["classes"][ci]
+            if k["defs"]:
+                ci += 1
+                continue
+            t = _copy(c)
+            ks = t["spec"]["classes"]
+            for j, kk in enumerate(ks):
+                nb = []
+                for x in kk["bases"]:
+                    for y in (ks[ci]["bases"] if x == ci else [x]):
+                        if y not in nb:
+                            nb.append(y)
+                kk["bases"] = [y - 1 if y > ci else y for y in nb]
+            ks.pop(ci)
+            if attempt(t):
+                changed = True
+            else:
+                ci += 1
+        # move inherited definitions into the mode class, one at a time
+        top = len(c["spec"]["classes"]) - 1
+        for ci in range(top):
+            for di in range(len(c["spec"]["classes"][ci]["defs"]) - 1, -1, -1):
+                t = _copy(c)
+                d = t["spec"]["classes"][ci]["defs"].pop(di)
+                if any(x["name"] == d["name"] for x in t["spec"]["classes"][top]["defs"]):
+                    continue
+                t["spec"]["classes"][top]["defs"].append(d)
+                if attempt(t):
+                    changed = True
+        # untangle: successors that do not matter
+        for ci in range(len(c["spec"]["classes"])):
+            for di, d in enumerate(c["spec"]["classes"][ci]["defs"]):
+                if d["kind"] == "state" and d["timed"] and d["next"] is not None:
+                    t = _copy(c)
+                    t["spec"]["classes"][ci]["defs"][di]["next"] = None
+                    if attempt(t):
+                        changed = True
     return c, fails(mod, c)
+
+
+def describe_classes(spec):
+    def one(d):
+        if d["kind"] == "other":
+            return "%s=<%s, not a state>" % (d["name"], d.get("as", "method"))
+        body = ("%gs%s" % (d["dur"] / T, "->" + d["next"] if d["next"] else "")) if d["timed"] else "untimed"
+        return "%s(%s%s)" % (d["name"], body, ",first" if d["first"] else "")
+    ks = spec["classes"]
+    if len(ks) == 1:
+        return "states " + ", ".join(one(d) for d in ks[0]["defs"])
+    top = len(ks) - 1
+    parts = []
+    for i, k in enumerate(ks):
+        nm = "Mode" if i == top else "Base%d" % i
+        bs = ",".join("Base%d" % j for j in k["bases"]) or "StatefulAutonomous"
+        parts.append("class %s(%s){%s}" % (nm, bs, ", ".join(one(d) for d in k["defs"])))
+    return "; ".join(parts) + "; inherited by Mode: %s" % (",".join(inherited_names(spec)) or "-")
 
 
 def describe(c, v, ev):
     v0 = v[0]
-    sts = ", ".join("%s(%s)" % (s["name"], ("%gs%s" % (s["dur"] / T, "->" + s["next"] if s["next"] else "")) if s["timed"] else "untimed")
-                    for s in c["spec"]["states"])
     hist = []
     for o in c["ops"]:
         if o["op"] == "enable":
@@ -651,8 +966,10 @@ def describe(c, v, ev):
             hist.append("on_iteration(%r)%s" % (o["tm"] / T, r))
         else:
             hist.append("on_disable")
-    return ("clause %s fails at operation %d: states %s first=%s; history %s; expected %s, implementation did %s"
-            % (v0["clause"], v0["op_index"], sts, c["spec"]["first"], " ".join(hist), v0["expected"], v0["observed"]))
+    where = "when the mode object is constructed" if v0["op_index"] < 0 else "at operation %d" % v0["op_index"]
+    return ("clause %s fails %s: %s first=%s; history %s; expected %s, implementation did %s"
+            % (v0["clause"], where, describe_classes(c["spec"]), c["spec"]["first"] if c["spec"]["first"] else c["spec"]["firsts"],
+               " ".join(hist), v0["expected"], v0["observed"]))
 
 
 # ---------------------------------------------------------------------
@@ -747,18 +1064,28 @@ def run(ctx):
         cases.append(c)
 
     results = []
+    ctors = []
     harness_problems = []
     distinct = set()
     t0 = time.time()
     for i, c in enumerate(cases):
         try:
-            ev, prob = run_impl(mod, c["spec"], c["ops"], i)
-        except Exception as e:  # the constructor or the harness itself failed
-            ev, prob = [[("err", type(e).__name__)]] + [[] for _ in c["ops"][1:]], ["run_impl: %r" % (e,)]
+            ctor, ev, prob = run_impl(mod, c["spec"], c["ops"], i)
+        except Exception as e:  # the harness itself failed (class creation)
+            ctor, ev, prob = type(e).__name__, [[] for _ in c["ops"]], ["run_impl: %r" % (e,)]
         if prob:
             harness_problems.append((i, prob[:2]))
         results.append(ev)
+        ctors.append(ctor)
         ctx.count("states=%d" % len(c["spec"]["states"]))
+        ctx.count("classes=%d" % len(c["spec"]["classes"]))
+        ctx.count("inherited_states=%d" % len(inherited_names(c["spec"])))
+        ctx.count("constructor=%s" % ("ok" if ctor is None else "raises"))
+        if c["spec"]["first"] in inherited_names(c["spec"]):
+            ctx.count("first_state_inherited")
+        called_inh = set(inherited_names(c["spec"])) & {e[1] for evs in ev for e in evs if e[0] == "call"}
+        if called_inh:
+            ctx.count("histories_calling_an_inherited_state")
         ctx.count("periods=%d" % sum(1 for o in c["ops"] if o["op"] == "enable"))
         for o, evs in zip(c["ops"], ev):
             ctx.count("op=%s" % o["op"])
@@ -770,16 +1097,16 @@ def run(ctx):
                     k += "(hand-over)"
                 ctx.count("iter:%s" % k)
         if nontrivial(c, ev):
-            distinct.add(json.dumps([c["spec"]["states"], c["spec"]["first"], c["ops"]], sort_keys=True, default=str))
+            distinct.add(json.dumps([c["spec"]["classes"], c["ops"]], sort_keys=True, default=str))
     ctx.coverage["impl_seconds"] = round(time.time() - t0, 1)
     # the clauses of the property, stated directly over the implementation's events
-    oracle_bad = [i for i, c in enumerate(cases) if oracle(c["spec"], c["ops"], results[i])]
+    oracle_bad = [i for i, c in enumerate(cases) if oracle(c["spec"], c["ops"], results[i], ctors[i])]
     ctx.obligation("oracle:property clauses hold on every implementation trace", not oracle_bad,
                    "cases %r" % oracle_bad[:10])
     ctx.obligation("harness:dashboard writable, arguments dyadic", not harness_problems, repr(harness_problems[:3]))
 
     items = []
-    for k, sh in enumerate(shards(list(zip(cases, results)), per_file)):
+    for k, sh in enumerate(shards(list(zip(cases, ctors, results)), per_file)):
         items.append(("cases_%d" % k, cases_file(sh)))
     res = ctx.coq_files_parallel(items)
     bad_total = []
@@ -795,13 +1122,16 @@ def run(ctx):
     samples = []
     for i in (0, len(cases) // 2, len(cases) - 1):
         samples.append({"origin": cases[i]["origin"], "spec": cases[i]["spec"], "ops": cases[i]["ops"],
-                        "events": results[i]})
+                        "constructor_raised": ctors[i], "events": results[i]})
     ctx.coverage.update({
         "evaluations": len(cases),
         "traces_validated_against_impl": len(cases),
         "distinct_nontrivial": len(distinct),
         "rule": "corpus + hand-written boundary histories + generated modes (1-5 states, timed/untimed, chains, loops, "
-                "branches, unknown successors 1%), 1-4 periods on one instance, dashboard edits/removals between "
+                "branches, unknown successors 1%; half of them as a class hierarchy -- 2-4 classes, linear, two bases, "
+                "diamond -- with the states spread over the mode class and its bases, inherited first states, definitions "
+                "hidden by a more derived state / non-state of the same name, 2% definitions the constructor must refuse), "
+                "1-4 periods on one instance, dashboard edits/removals between "
                 "periods, tm sequences in ticks of 1/64 s generated alongside the reference bookkeeping (30% of steps "
                 "land on expiry-1/expiry/expiry+1, pauses of 200 ticks, repeated and 3% decreasing readings, untimed "
                 "overflow), per-iteration scripts of next_state/done; non-trivial = at least two different states "
@@ -816,7 +1146,7 @@ def run(ctx):
         first = bad_total + oracle_bad
         order = first + [i for i in range(len(cases)) if i not in set(first)]
         for i in order:
-            v = oracle(cases[i]["spec"], cases[i]["ops"], results[i])
+            v = oracle(cases[i]["spec"], cases[i]["ops"], results[i], ctors[i])
             if v:
                 found.append(cases[i])
                 break
@@ -851,7 +1181,9 @@ def replay(ctx, obj):
     mod = impl_mod()
     if obj.get("kind") == "input" or ("spec" in obj and "ops" in obj):
         c = norm_case({"spec": obj["spec"], "ops": obj["ops"]})
-        ev, prob = run_impl(mod, c["spec"], c["ops"], 0)
+        print("mode definition: %s" % describe_classes(c["spec"]))
+        ctor, ev, prob = run_impl(mod, c["spec"], c["ops"], 0)
+        print("constructor -> %s" % ("a mode object" if ctor is None else "raises %s" % ctor))
         for o, e in zip(c["ops"], ev):
             if o["op"] == "iter":
                 print("on_iteration(tm=%r s = %d ticks) rules=%r -> %r" % (o["tm"] / T, o["tm"], o["rules"], e))
@@ -859,7 +1191,7 @@ def replay(ctx, obj):
                 print("on_enable() dashboard=%r -> %r" % (o["dash"], e))
             else:
                 print("on_disable() -> %r" % (e,))
-        v = oracle(c["spec"], c["ops"], ev)
+        v = oracle(c["spec"], c["ops"], ev, ctor)
         if v:
             print(describe(c, v, ev))
             print("VIOLATION property=C15 replay=(replayed)")
